@@ -180,7 +180,10 @@ pub fn par1_plans(th: bool, mode: Mode, cache_only: bool) -> Vec<Plan> {
     ];
     // (long searches: in the uninterrupted sweeps only -- with the cut-off at each of their 10^2..10^3 polls they would eat the budget)
     if !heavy { p.push(mk("KPH-0", variants_kp(), !th, None)); }
-    if th { p.push(mk("TM-N2.1", variants_ca(), true, None)); p.push(mk("TM-N3.1", variants_ca(), true, None)); p.push(mk("KP-5", variants_kp(), true, Some(if heavy { 5000 } else { 60000 }))); }
+    // three decisions per state: the first layer below a sub-problem root is wider than width 2, so the restricted diagram drops
+    // a branch which the relaxed diagram of the same sub-problem keeps exact (seeded change C02r6)
+    if !th && !heavy { p.push(mk("TM-N3.1", variants_ca(), false, None)); }
+    if th { p.push(mk("TM-N2.1", variants_ca(), true, None)); p.push(mk("TM-N3.1", variants_ca(), heavy, None)); p.push(mk("KP-5", variants_kp(), true, Some(if heavy { 5000 } else { 60000 }))); }
     p
 }
 pub fn par1_cov(agg: &Agg, scopes: Vec<Value>, complete: bool) -> Value {
